@@ -68,8 +68,10 @@ type Tunnel struct {
 	sock   knxnet.Socket
 	config TunnelConfig
 
-	// Connection information
+	// Connection information; channel and control are rewritten by a reconnect while heartbeat
+	// workers and Close read them, connMu guards them.
 	layer   knxnet.TunnelLayer
+	connMu  sync.RWMutex
 	channel uint8
 	control knxnet.HostInfo
 
@@ -113,12 +115,14 @@ func (conn *Tunnel) requestConn() (err error) {
 		return err
 	}
 
+	conn.connMu.Lock()
 	conn.control = hostInfo
+	conn.connMu.Unlock()
 
 	req := &knxnet.ConnReq{
 		Layer:   conn.layer,
-		Control: conn.control,
-		Tunnel:  conn.control,
+		Control: hostInfo,
+		Tunnel:  hostInfo,
 	}
 
 	// Send the initial request.
@@ -162,7 +166,9 @@ func (conn *Tunnel) requestConn() (err error) {
 					// The channel and the sequence number belong together: a sender that holds or is
 					// about to take the lock must never combine the new channel with the old numbering.
 					conn.seqMu.Lock()
+					conn.connMu.Lock()
 					conn.channel = res.Channel
+					conn.connMu.Unlock()
 					conn.seqNumber = 0
 					conn.seqMu.Unlock()
 
@@ -186,7 +192,9 @@ func (conn *Tunnel) requestConn() (err error) {
 func (conn *Tunnel) requestConnState(
 	heartbeat <-chan knxnet.ErrCode,
 ) (knxnet.ErrCode, error) {
+	conn.connMu.RLock()
 	req := &knxnet.ConnStateReq{Channel: conn.channel, Status: 0, Control: conn.control}
+	conn.connMu.RUnlock()
 
 	// Send first connection state request
 	err := conn.sock.Send(req)
@@ -227,11 +235,15 @@ func (conn *Tunnel) requestConnState(
 
 // requestDisc sends a disconnect request to the gateway.
 func (conn *Tunnel) requestDisc() error {
-	return conn.sock.Send(&knxnet.DiscReq{
+	conn.connMu.RLock()
+	req := &knxnet.DiscReq{
 		Channel: conn.channel,
 		Status:  0,
 		Control: conn.control,
-	})
+	}
+	conn.connMu.RUnlock()
+
+	return conn.sock.Send(req)
 }
 
 // requestTunnel sends a tunnel request to the gateway and waits for an appropriate acknowledgement.
